@@ -33,6 +33,8 @@ def shards(tier):
     ks = KEYSETS_Q if tier == "quick" else KEYSETS_T
     out = [{"keys": k, "kdt": "int64", "init": i, "depth": 3} for k in ks for i in INITS]
     out += [{"keys": k, "kdt": d, "init": i, "depth": 2} for (k, d) in TYPED for i in ("default", "array")]
+    # key sets at the ends of the key dtype's range / spread over more than half of it (bounds and spans computed in the key dtype wrap)
+    out += [{"keys": k, "kdt": "int64", "init": i, "depth": 2} for k in EXTREME_KEYSETS for i in ("default", "four", "array")]
     # EVERY batch of up to 4 samples (5 in the thorough tier) over a 9-symbol universe, for tables whose buckets hold 3, 2, 1 (and 0) keys:
     # all relations between the sizes of the visited buckets, the number of samples and their order
     for ex in EXH:
@@ -41,6 +43,7 @@ def shards(tier):
     return out
 
 
+EXTREME_KEYSETS = [[2 ** 63 - 1, 5, -3], [-2 ** 63, 7, 2 ** 63 - 1], [-2 ** 62 - 5, 2 ** 62, 1], [2 ** 63 - 2, 2 ** 63 - 1]]
 EXH = [{"keys": [0, 4, 8, 1, 5, 2], "mod": 4, "extra": [3, 12, 9]},        # buckets {0,4,8} {1,5} {2} {}; non-keys: empty bucket / colliding
        {"keys": [7, 0, 14, 1, 8, 2, 3], "mod": 7, "extra": [21, 4, 15]},    # buckets {7,0,14} {1,8} {2} {3} and three empty ones
        {"keys": [6, 1, 3, 4, 2], "mod": None, "extra": [10, 0, 15]}]        # default modulus 9: {1} {2} {3} {4} {6}, colliding 10, 15, free 0
